@@ -87,6 +87,19 @@ func (bs *sqlPartStore) PutPart(ctx context.Context, tx database.Tx, partId part
 		}
 	}
 
+	if chunkIndex == 0 {
+		// An empty part still exists. Without a chunk row GetPart could not tell it
+		// from a part that was never written and would report it as not found.
+		partContentEntity := partContent.Entity{
+			Id:         ptrutils.ToPtr(partId),
+			ChunkIndex: 0,
+			Content:    []byte{},
+		}
+		if saveErr := bs.partContentRepository.SavePartContent(ctx, tx.SqlTx(), bs.partStoreId, &partContentEntity); saveErr != nil {
+			return saveErr
+		}
+	}
+
 	return nil
 }
 
